@@ -665,8 +665,9 @@ func (p *parser) funcDeclaration(startDepth int) ast.Statement {
 			Types:  genericTypes,
 			Tokens: tokens, // -1 to include the colon
 			Context: ast.GenericContext{
-				Symbols: p.scope(),
-				Aliases: p.aliases,
+				Symbols:   p.scope(),
+				Aliases:   p.aliases,
+				Operators: p.Operators, // the overloads of the declaring module, like its aliases
 			},
 			Instantiations: make(map[*ast.Module][]*ast.FuncDecl, 8),
 		}
